@@ -626,6 +626,102 @@ func sharedResults(p *an.Prog, want func(*ssa.Function) bool) (out []string, n i
 	return out, n
 }
 
+// pooledEscapes: an object taken from a sync.Pool and put back by the same function (directly or by defer) is the next
+// taker's from that moment on. Nothing that refers into it may outlive the function: not the object, not the bytes of a
+// pooled buffer (Bytes(), re-sliced or trimmed), stored into a longer-lived object or returned. (String() copies and is
+// fine.) A reply whose Result points into a pooled buffer is rewritten by the next request before it has been sent.
+func pooledEscapes(p *an.Prog, want func(*ssa.Function) bool) (out []string, n int) {
+	for _, fn := range p.Repo {
+		if p.IsTestFunc(fn) || isTestDoublePkg(fn) || !want(fn) {
+			continue
+		}
+		for _, c := range an.Calls(fn, false) {
+			if !an.IsMethod(an.CallObj(c), "sync", "Pool", "Get") || c.Value() == nil {
+				continue
+			}
+			n++
+			// the object and everything that points into it
+			inside := map[ssa.Value]bool{c.Value(): true}
+			var escapes []ssa.Instruction
+			put := false
+			work := []ssa.Value{c.Value()}
+			for len(work) > 0 {
+				v := work[len(work)-1]
+				work = work[:len(work)-1]
+				if v.Referrers() == nil {
+					continue
+				}
+				for _, ref := range *v.Referrers() {
+					switch t := ref.(type) {
+					case *ssa.TypeAssert, *ssa.Phi, *ssa.Slice, *ssa.ChangeType, *ssa.Convert, *ssa.MakeInterface, *ssa.Extract, *ssa.FieldAddr, *ssa.IndexAddr:
+						tv := t.(ssa.Value)
+						if _, isStr := tv.Type().Underlying().(*types.Basic); isStr {
+							continue // converted to a string: a copy
+						}
+						if !inside[tv] {
+							inside[tv] = true
+							work = append(work, tv)
+						}
+					case *ssa.UnOp:
+						if t.Op == token.MUL && !inside[t] {
+							switch t.Type().Underlying().(type) {
+							case *types.Slice, *types.Map, *types.Pointer:
+								inside[t] = true
+								work = append(work, t)
+							}
+						}
+					case ssa.CallInstruction:
+						f := an.CallObj(t)
+						if an.IsMethod(f, "sync", "Pool", "Put") {
+							put = true
+							continue
+						}
+						if f == nil || f.Pkg() == nil || t.Value() == nil {
+							continue
+						}
+						cv := t.Value()
+						isBytes := an.IsMethod(f, "bytes", "Buffer", "Bytes") || (f.Pkg().Path() == "bytes" && strings.HasPrefix(f.Name(), "Trim") && len(t.Common().Args) > 0 && t.Common().Args[0] == v)
+						if isBytes && !inside[cv] {
+							inside[cv] = true
+							work = append(work, cv)
+						}
+					case *ssa.Store:
+						if t.Val == v {
+							if al, isAlloc := t.Addr.(*ssa.Alloc); isAlloc && !al.Heap {
+								// a local variable holding it: follow its loads
+								if !inside[al] {
+									inside[al] = true
+									for _, lr := range *al.Referrers() {
+										if ld, ok := lr.(*ssa.UnOp); ok && ld.Op == token.MUL && !inside[ld] {
+											inside[ld] = true
+											work = append(work, ld)
+										}
+									}
+								}
+								continue
+							}
+							escapes = append(escapes, t)
+						}
+					case *ssa.Return:
+						escapes = append(escapes, t)
+					}
+				}
+			}
+			if !put {
+				continue
+			}
+			for _, e := range escapes {
+				what := "is stored into a longer-lived object"
+				if _, isRet := e.(*ssa.Return); isRet {
+					what = "is returned"
+				}
+				out = append(out, an.FuncName(fn)+" puts the object taken from the pool at "+p.Pos(c.Pos())+" back, yet something that points into it "+what+" at "+p.Pos(e.Pos())+": the next taker rewrites it while it is still in use")
+			}
+		}
+	}
+	return out, n
+}
+
 // RunGeneric evaluates the generic discipline rules for one property over its scope.
 func RunGeneric(prop string, p *an.Prog, r *an.Run) {
 	pk := genericScope[prop]
@@ -658,6 +754,8 @@ func RunGeneric(prop string, p *an.Prog, r *an.Run) {
 	r.Check(len(rl) == 0 && nLockFns > 0, "no-relock", strings.Join(pk, ","), token.NoPos, "no mutex is acquired by a goroutine that already holds it", "%s", strings.Join(dedup(rl), "; "))
 	sr, _ := sharedResults(p, scopeWant(pk))
 	r.Check(len(sr) == 0, "shared-result", strings.Join(pk, ","), token.NoPos, "no method of a lock-guarded type returns the guarded storage itself", "%s", strings.Join(sr, "; "))
+	pe, _ := pooledEscapes(p, scopeWant(pk))
+	r.Check(len(pe) == 0, "pooled-escape", strings.Join(pk, ","), token.NoPos, "nothing that points into a pooled object outlives the function that puts it back", "%s", strings.Join(dedup(pe), "; "))
 	tc, _ := trimCutsetMisuse(p, scopeWant(pk))
 	r.Check(len(tc) == 0, "trim-cutset", strings.Join(pk, ","), token.NoPos, "no Trim/TrimLeft/TrimRight is given a word for a cutset", "%s", strings.Join(tc, "; "))
 	r.Check(len(ex) == 0, "loop-visits-all", strings.Join(pk, ","), token.NoPos, "effectful collection loops are left early only under a count bound", "%s", strings.Join(ex, "; "))
